@@ -50,6 +50,17 @@ def export_observed(data: bytes, work: str, name: str, extra: Dict[str, bytes] =
     return obs
 
 
+def observe_cuts(image: bytes, cuts: List[int], work: str, name: str, cue_text: List[str] = None) -> List[Dict[str, Any]]:
+    """export_observed for every cut of one image, spread over forked workers (each with its own scratch directory)"""
+    from .. import faults
+
+    def one(cut):
+        w = os.path.join(work, f"w{os.getpid()}")
+        os.makedirs(w, exist_ok=True)
+        return export_observed(image[:cut], w, name, cue_text=cue_text)
+    return faults.parallel(one, list(cuts), procs=8)
+
+
 def judge_cut(chk: Check, label: str, cut: int, obs: Dict[str, Any], full: Dict[str, bytes], needs: List[Tuple[str, int]],
               payload: dict, records: List[dict]):
     problems, d15 = [], []
@@ -122,6 +133,7 @@ def run(chk: Check):
         pick = (pick[:3] + [c for c in cases if any(f["pair"] for p in c["parts"] for v in p["vols"] for f in v["files"])][:2]) if not thorough else \
                (pick[:12] + [c for c in cases if any(f["pair"] for p in c["parts"] for v in p["vols"] for f in v["files"])][:8])
         pick = inv + [c for c in pick if c not in inv]
+        fielded = sorted(pick, key=lambda c: (-len(c["parts"]), -len(c["needs"])))[:3]
         for ci, case in enumerate(pick):
             image = aw.build_image(case, chk.seed + ci)
             full = export_observed(image, work, "image.img")
@@ -132,8 +144,11 @@ def run(chk: Check):
             if not thorough:          # all cuts inside structures, a stride of the boundary cuts
                 inner = sorted(set(case["inner_cuts"]))
                 cuts = sorted(set(inner + cuts[:: max(1, len(cuts) // 50)]))
-            for cut in cuts:
-                obs = export_observed(image[:cut], work, "image.img")
+            # every byte position inside one record of each table kind (partition head, SAT start, file table, sample header):
+            # quick: on the images with the most partitions; thorough: on all
+            if thorough or case in fielded:
+                cuts = sorted(set(cuts) | {c for c in case["field_cuts"] if c <= len(image)})
+            for cut, obs in zip(cuts, observe_cuts(image, cuts, work, "image.img")):
                 judge_cut(chk, "akai", cut, obs, full["files"], needs, {"id": ci, "case": case, "seed": chk.seed + ci, "kind": "akai"}, records)
         # Roland
         rcases = [c for c in c02.generate(chk, 48, chk.seed + 42, label="Roland images for truncation") if len(c["img"]["samples"]) >= 2 and c["expected"]]
@@ -154,8 +169,7 @@ def run(chk: Check):
             cuts = [c for c in cuts if c <= len(image)]
             if not thorough:
                 cuts = cuts[:: max(1, len(cuts) // 30)]
-            for cut in cuts:
-                obs = export_observed(image[:cut], work, "image.img")
+            for cut, obs in zip(cuts, observe_cuts(image, cuts, work, "image.img")):
                 judge_cut(chk, "roland", cut, obs, full["files"], needs, {"id": ci, "case": case, "seed": chk.seed + ci, "kind": "roland"}, records)
         # CDDA
         res = chk.run_model(c03.model(3, c03.TIMES_Q[:4], {2352, 4703}, others=()), label="CDDA sheets for truncation")
@@ -167,8 +181,8 @@ def run(chk: Check):
             names = [(w["title"] if not w["untitled"] else f"Untitled Track {w['pos']}") + ".wav" for w in case["windows"]]
             needs = [(n, w["off"] + w["size"]) for n, w in zip(names[:-1], case["windows"][:-1])]
             cuts = sorted({max(0, w["off"] + d) for w in case["windows"] for d in (-1, 0, 1, 2, 3, 4, 1000)} | {case["binlen"] - 1, 0})
-            for cut in [c for c in cuts if c <= case["binlen"]][:: (1 if thorough else 3)]:
-                obs = export_observed(data[:cut], work, "image.bin", cue_text=text)
+            cuts = [c for c in cuts if c <= case["binlen"]][:: (1 if thorough else 3)]
+            for cut, obs in zip(cuts, observe_cuts(data, cuts, work, "image.bin", cue_text=text)):
                 judge_cut(chk, "cdda", cut, obs, full["files"], needs, {"id": ci, "case": case, "kind": "cdda"}, records)
         rej = c04.validate(chk, records[:20000], f"trace validation: {min(len(records), 20000)} files reported from truncated images are well-formed WAVs")
         for rj in rej:
